@@ -171,8 +171,10 @@ def scenario_params(tier):
 
 def run(ctx):
     bound = 1 if ctx.quick else 2
+    in_core = (lambda params: True) if ctx.quick else H.core_scenarios(scenario_params)
     specs = [{
-        "module": "checks.c11", "params": params, "bound": bound,
+        "module": "checks.c11", "params": params,
+        "bound": bound if in_core(params) else 1,
         "opts": {"time_horizon": 30.0, "drain": 2.0, "max_points": 8000, "free_switch_cost": 1,
                      "time_jump_cost": None if ctx.quick else 1},
         "budget": 3000 if ctx.quick else 30000,
